@@ -153,10 +153,12 @@ CLAIMS = {
    text="Lean theorems over all continuations (stores, further requests in any timestamp order, removal, vanish, reopen, rebuild): an id marker once set "
         "stays set; the deletion time of an address never decreases; storing an event whose id is marked never succeeds, now or later; an event at a "
         "deleted address not newer than the deletion time is refused, now and after any continuation; an event newer than every deletion of its address "
-        "(and not marked by id) is never refused as deleted. Correspondence + abstract specification after every step: reply classes, the retrievable "
-        "set and both marker tables with their times.",
-   note=PROOF_NOTE + 'Modelled, not verified: LMDB (ordered maps, snapshot reads inside a write transaction, atomic commit), the mmap-append event map; the seven index tables are modelled as functions of the set of indexed events with range scans as filter+key-order sort. ' + "PARTIAL: that every covered event is absent from the retrievable set in every continuation is established by correspondence with the abstract specification (retrievable set after every step), not yet by a theorem.",
-   technique="Lean 4 proof (monotonicity of markers by induction over histories) + differential correspondence with the abstract specification",
+        "(and not marked by id) is never refused as deleted; an accepted request marks every id it names and every address it names with a time >= its own; in "
+        "EVERY reachable state a marked id is not retrievable and every retrievable event is newer than the deletion time of its address (invariant "
+        "Covered, by induction over histories incl. rebuild) - so everything an accepted deletion covers is unretrievable in every continuation. "
+        "Correspondence + abstract specification after every step: reply classes, the retrievable set and both marker tables with their times.",
+   note=PROOF_NOTE + 'Modelled, not verified: LMDB (ordered maps, snapshot reads inside a write transaction, atomic commit), the mmap-append event map; the seven index tables are modelled as functions of the set of indexed events with range scans as filter+key-order sort. ' + "Marker placed on an id that is not stored yet: the code's documented choice.",
+   technique="Lean 4 proof (marker monotonicity and the Covered invariant by induction over histories) + differential correspondence with the abstract specification",
    design="6/C11"),
  'C17': dict(
    text="Lean theorems: an unretrievable event is returned by no filter through any of the seven plans; a retrievable event is returned by the filter of its "
